@@ -1,17 +1,5 @@
 """Source of MANIFEST.json (python3 tools/mkmanifest.py regenerates it)."""
-from props import PROPS
-
-LEVEL_TEXT = {
-    "C25": ("proof",
-            "The property in full is a Lean 4 theorem (CapyV.C25.lineCol_exact, header_one_based, lineCol_total, lineStarts_strictMono) about a byte-level model of LineIndex::new/line_col and of the header of Diagnostic::display, for every text and every offset, no size bound. The model is tied to the code on every run by running the real LineIndex and the real Diagnostic::display against the compiled Lean model on all strings <= 6 (thorough: <= 8) symbols over {a,\\n,\\r,\\t,é} x every offset plus random UTF-8 up to 64 KiB, and against an independent oracle written from the property statement.",
-            "§4 C25",
-            "Lean 4 proof (induction over the text) + differential correspondence check against the real crate"),
-}
-
-LEVEL_TEXT["C17"] = ("proof",
-    "Every clause of the property is a Lean 4 theorem about a transcription of calc_single / StructLayout::new / padding_needed_for / stride, by structural induction over the (mutual) type syntax, for every well-formed type and pointer width: align_pow2_le8, struct_fields_ok (declaration order, aligned, disjoint, inside the size), array_size + stride_rounds_up, distinct/variant_same_layout, optional_pointer_is_pointer_sized, optional/error_union/enum tag after the largest payload. The model is tied to the code each run through hook codegen::verif::layouts on every primitive, two constructor layers over them, random depth-3 types, both pointer widths (0 disagreements required), and the rules are also checked directly on the implementation's numbers; thorough compares structs of scalars with host gcc offsetof.",
-    "§4 C17",
-    "Lean 4 proof (mutual structural induction over types) + differential correspondence via hook")
+from props import PROPS, LEVEL_TEXT
 
 NOT_YET = "check not built yet in this round (work in progress; see DESIGN.md §8 for the order)"
 
